@@ -192,6 +192,7 @@ fn build_items(lang: &str, mode: Mode, raw: Vec<RawItem>, out: &mut Vec<Item>) {
             (Mode::Dirty, 21) => String::new(),
             (Mode::Dirty, 22) => "'".to_string(),
             (Mode::Dirty, 23) => " -".to_string(),
+            (Mode::Dirty, 18) => ["-\n", "-\r\n", "- ", "-\t"][(b as usize) % 4].to_string(),
             (_, 19) => ["\n\n", "\r\n\r\n", "\n \n", "\n\n\n"][(b as usize) % 4].to_string(),
             (_, j) => SPACES[if j < 14 { 0 } else { (j as usize - 14) % SPACES.len() }].to_string(),
         };
